@@ -50,6 +50,9 @@ pub struct Spec {
     /// the first differing link is signed by the base link's own key material under its other key id
     #[serde(default)]
     pub twin: bool,
+    /// with `cosigned`: 70 (not 3) further valid signatures by untrusted keys on the layout and on every link
+    #[serde(default)]
+    pub many_cosigners: bool,
 }
 
 /// Step `i` delegated by two authorised functionaries; the copy filed by `bad` cannot verify.
@@ -156,6 +159,19 @@ pub fn verify_dir_once(dir: &std::path::Path) -> serde_json::Value {
 }
 
 /// Build the world under test: step `i` gets threshold <= 1 and additional, differing, valid links.
+fn cosign_many(w: &mut World) {
+    for i in 0..70 {
+        w.sigs.push(SigEntry::good(&stranger_wide(i)));
+    }
+    for f in w.links.iter_mut() {
+        if let Body::Link { sigs, .. } = &mut f.body {
+            for i in 0..70 {
+                sigs.push(SigEntry::good(&stranger_wide(i + 35)));
+            }
+        }
+    }
+}
+
 fn cosign(w: &mut World) {
     w.sigs.push(SigEntry::good(&stranger(11)));
     w.sigs.push(SigEntry::good(&stranger(12)));
@@ -172,7 +188,11 @@ fn cosign(w: &mut World) {
 fn build(spec: &Spec) -> Option<World> {
     let mut w = build_inner(spec)?;
     if spec.cosigned {
-        cosign(&mut w);
+        if spec.many_cosigners {
+            cosign_many(&mut w);
+        } else {
+            cosign(&mut w);
+        }
     }
     Some(w)
 }
@@ -318,8 +338,9 @@ impl Property for C13 {
             prop_oneof![5 => Just(None), 2 => (0u8..8).prop_map(Some)],
             prop_oneof![3 => Just(false), 1 => Just(true)],
             prop_oneof![3 => Just(false), 1 => Just(true)],
+            prop_oneof![4 => Just(false), 1 => Just(true)],
         )
-            .prop_map(|((world, owners), step, variants, rule_trap, creation_order, two_digest_match, multi_party, surplus_sub, cosigned, twin)| Spec { world, owners, step, variants, rule_trap, creation_order, two_digest_match, multi_party, surplus_sub, cosigned, twin })
+            .prop_map(|((world, owners), step, variants, rule_trap, creation_order, two_digest_match, multi_party, surplus_sub, cosigned, twin, many_cosigners)| Spec { world, owners, step, variants, rule_trap, creation_order, two_digest_match, multi_party, surplus_sub, cosigned, twin, many_cosigners })
             .prop_filter("buildable", |s| build(s).is_some())
             .boxed()
     }
